@@ -2285,10 +2285,12 @@ class SimpleGroupContext(GroupContext, CanProtect, CanUnprotect, SecurityContext
 
         kid = unprotected.get(COSE_KID, None)
         if kid in self.peers:
-            if COSE_COUNTERSIGNATURE0 in unprotected:
-                return _GroupContextAspect(self, kid)
-            elif self.recipient_public_keys[kid] is DETERMINISTIC_KEY:
+            if self.recipient_public_keys[kid] is DETERMINISTIC_KEY:
+                if COSE_COUNTERSIGNATURE0 in unprotected:
+                    return None
                 return _DeterministicUnprotectProtoAspect(self, kid)
+            elif COSE_COUNTERSIGNATURE0 in unprotected:
+                return _GroupContextAspect(self, kid)
             else:
                 return _PairwiseContextAspect(self, kid)
 
